@@ -52,7 +52,15 @@ let run_reads (rd : 'a -> nat -> 'a * rres) (st0 : 'a) (sizes : int list) (drain
     let i = ref 0 in
     while not !term && not !panicked && !i < 5000 do one drain; incr i done;
     if !term && not !panicked then begin
-      one drain; if not !panicked then one drain
+      (* two calls after the terminal: only the bytes handed out are observed *)
+      let post () =
+        let (s, r) = rd !st (nat_of_int drain) in
+        st := s;
+        (match r with
+         | RData b -> out := ("+" ^ hexs b) :: !out
+         | REof | RErr -> out := "+-" :: !out
+         | RPanic -> out := "panic" :: !out; panicked := true) in
+      post (); if not !panicked then post ()
     end
   with Exit -> ());
   List.rev !out
